@@ -205,6 +205,9 @@ ENGINE_SET_EXCEPTIONS = {
 }
 
 
+SHARD_LOOKUP = shared.SHARD_MAP_LOOKUP
+
+
 def rule_parity(ctx, R):
     arms = rules_cmd.dispatch_arms(ctx)
     ex = executor_table(ctx)
@@ -251,6 +254,9 @@ def rule_parity(ctx, R):
         if s_arm is None or e_arm is None or not e_arm["handled"]:
             continue
         sa = s_arm["reach"] & api; ea = e_arm["reach"] & api
+        # wrappers that only delegate to another engine method (incr -> incr_by) are not compared
+        leaf = lambda fs: {f for f in fs if any(SHARD_LOOKUP.search(t["f"] or "") for _, t in ctx.prog.bodies[f].calls()) or not (ctx.cg.edges.get(f, set()) & api)}
+        sa = leaf(sa); ea = leaf(ea)
         if recorded is not None and ((sa | ea) - recorded):
             R.note("%s: reaches an engine method not in the recorded tree (%s); engine-set parity not compared" % (name, sorted(x.split("::")[-1] for x in (sa | ea) - recorded)))
             continue
